@@ -2565,13 +2565,31 @@ class PGPKey(Armorable, ParentRef, PGPObject):
 
     @property
     def self_verified(self):
-        warnings.warn("TODO: Self-sigs verification is not yet working because self-sigs are not parsed!!!")
-        return SecurityIssues.OK
+        """
+        ``SecurityIssues.OK`` if a self-signature that is in force and cryptographically correct vouches for this key:
+        for a primary key a self-certification of one of its user ids or user attributes, or a direct-key
+        self-signature; for a subkey a binding signature by the primary key it comes with (RFC 4880, 11.1).
+        Otherwise ``SecurityIssues.NoSelfSignature``: a key packet that merely sits in a certificate is no part of it.
+        """
+        certs = {SignatureType.Generic_Cert, SignatureType.Persona_Cert, SignatureType.Casual_Cert,
+                 SignatureType.Positive_Cert}
 
-        if self._self_verified is None:
-            self._do_self_signatures_verification()
+        if self.is_primary:
+            issuer = self
+            candidates = itertools.chain(
+                ((sig, self) for sig in self._signatures if sig.type == SignatureType.DirectlyOnKey),
+                ((sig, uid) for uid in self._uids for sig in uid._signatures if sig.type in certs))
 
-        return self._self_verified
+        else:
+            issuer = self.parent
+            candidates = ((sig, self) for sig in self._signatures if sig.type == SignatureType.Subkey_Binding)
+
+        if issuer is not None:
+            for sig, subject in candidates:
+                if sig.signer == issuer.fingerprint.keyid and not sig.is_expired and issuer._issued(sig, subject):
+                    return SecurityIssues.OK
+
+        return SecurityIssues.NoSelfSignature
 
     def check_primitives(self):
         return self.key_algorithm.validate_params(self.key_size)
